@@ -20,7 +20,7 @@ RULE = ('random (optionally time-dependent) Hermitian chains of 4-8 sites (neare
 ASSUMPTIONS = ['C10 (dense H from the recorded terms), C07 (dense state of an MPS)', 'scipy/numpy eigh as ground truth for exp(-iHt)']
 ANCHORS = {'tenpy/algorithms/tebd.py': ['*'], 'tenpy/algorithms/tdvp.py': ['*'], 'tenpy/algorithms/mpo_evolution.py': ['*'],
            'tenpy/algorithms/algorithm.py': ['*']}
-REQUIRED_COUNTERS = {'engine.TEBDEngine': 10, 'engine.QRBasedTEBDEngine': 3, 'engine.TwoSiteTDVPEngine': 5, 'engine.SingleSiteTDVPEngine': 5,
+REQUIRED_COUNTERS = {'imag.calls': 30, 'imag.truncating_calls': 10, 'engine.TEBDEngine': 10, 'engine.QRBasedTEBDEngine': 3, 'engine.TwoSiteTDVPEngine': 5, 'engine.SingleSiteTDVPEngine': 5,
                      'engine.ExpMPOEvolution': 8, 'timedep.runs': 6, 'ledger.time_checked': 40, 'ledger.trunc_checked': 40,
                      'ledger.trunc_nonzero': 8, 'order.ratio_checked': 15, 'schedule.checked': 100, 'split.checked': 8}
 
@@ -30,7 +30,8 @@ def plan(tier, seed, jobs):
     return (shard('compiled', 1, 1, part='schedule', timeout=600) +
             shard('compiled', 140 if q else 1400, 7, part='tebd', timeout=3000, time_budget=150 if q else 1500) +
             shard('compiled', 80 if q else 1000, 4, part='tdvp', timeout=3000, time_budget=150 if q else 1500) +
-            shard('compiled', 80 if q else 1000, 4, part='expmpo', timeout=3000, time_budget=150 if q else 1500))
+            shard('compiled', 80 if q else 1000, 4, part='expmpo', timeout=3000, time_budget=150 if q else 1500) +
+            shard('compiled', 60 if q else 800, 3, part='tebd_imag', timeout=3000, time_budget=150 if q else 1500))
 
 
 def worker_init(ctx):
@@ -533,6 +534,90 @@ def case_tebd(ctx, i):
         opts.update({'cbe_expand': float(rng.choice([0.1, 0.5, 3.0])), 'cbe_min_block_increase': int(rng.choice([1, 2, 10]))})
     expected = {1: 1, 2: 2, 4: 4, '4_opt': 4}[order] if name != 'TimeDependentTEBD' else 1
     engine_case(ctx, i, name, opts, 'nn', True, expected, unitary=True, tangent=False)
+
+
+def case_tebd_imag(ctx, i):
+    """Imaginary-time sweeps (update_imag, the path of run_GS on finite chains): accumulated truncation error == sum of the truncations
+    performed, independent of how the steps are split over calls; the direction of the state follows exp(-tau H) at second order."""
+    from tenpy.algorithms import tebd
+    rng = ctx.rng
+    probe = install_truncate_probe(ctx)
+    site, kind, L, spec = make_spec(rng, True, False)
+    sites = [site] * L
+    name = 'TEBDEngine' if rng.random() < 0.7 else 'QRBasedTEBDEngine'
+    truncating = bool(rng.random() < 0.6)
+    psi0, v0 = initial_state(rng, sites, entangled=bool(rng.random() < 0.7))
+    Hd = dense_H(sites, spec, 0.)
+    nrm = max(np.linalg.norm(Hd, 2), 1e-6)
+    dtau = float(rng.choice([0.02, 0.05, 0.1])) / nrm
+    splits = [[int(x) for x in rng.integers(1, 4, size=int(rng.integers(1, 4)))]]
+    total = sum(splits[0])
+    splits.append([total] if splits[0] != [total] else [1] * total)
+    opts = {'order': 2, 'trunc_params': {'chi_max': int(rng.integers(2, 4)) if truncating else 10000, 'svd_min': 1e-14}, 'max_trunc_err': None}
+    if name == 'QRBasedTEBDEngine':
+        opts.update({'cbe_expand': float(rng.choice([0.5, 3.0]))})
+    case = {'engine': name, 'sites': kind, 'L': L, 'spec': spec, 'options': copy.deepcopy(opts), 'dtau*|H|': dtau * nrm, 'splits': splits}
+    ctx.count('imag.cases')
+    finals = []
+    for split in splits:
+        M = make_model('nn', site, L, spec)
+        psi = psi0.copy()
+        led = Ledger()
+        try:
+            eng = getattr(tebd, name)(psi, M, copy.deepcopy(opts))
+            eng.calc_U(2, dtau, type_evo='imag')
+            start = float(eng.trunc_err.eps)
+            returned = []
+            probe['ledger'] = led
+            try:
+                for n_steps in split:
+                    before = len(led.truncate_eps)
+                    err = eng.update_imag(n_steps)
+                    performed = sum(led.truncate_eps[before:])
+                    returned.append(float(err.eps))
+                    ctx.count('imag.calls')
+                    if performed > 1e-14:
+                        ctx.count('imag.truncating_calls')
+                    # (the QR-based decomposition computes its error from the discarded part of theta, not through truncate())
+                    if name == 'TEBDEngine' and not (abs(err.eps - performed) <= 1e-10 * max(1e-6, performed)):
+                        ctx.violation('%s:update_imag:returned-error-is-not-the-sum-of-the-truncations-performed' % name,
+                                      'N_steps=%d: returned %r, performed %r' % (n_steps, err.eps, performed), case)
+                        return
+            finally:
+                probe['ledger'] = None
+        except Exception as e:
+            tb = traceback.format_exc()
+            if '/tenpy/' not in tb:
+                raise
+            if isinstance(e, NotImplementedError):
+                raise _Skip()
+            ctx.violation('%s:update_imag:raises-%s' % (name, type(e).__name__), tb[-700:], case)
+            return
+        acc = float(eng.trunc_err.eps) - start
+        if not (abs(acc - sum(returned)) <= 1e-10 * max(1e-6, sum(returned))):
+            ctx.violation('%s:update_imag:accumulated-trunc_err-differs-from-sum-of-step-errors' % name,
+                          'calls with N_steps %r: engine.trunc_err grew by %r, the calls returned %r (sum %r)' % (split, acc, returned, sum(returned)), case)
+            return
+        finals.append((acc, dense_of(psi)))
+    (a1, w1), (a2, w2) = finals
+    if not (abs(a1 - a2) <= 1e-8 * max(1e-6, a1, a2)):
+        ctx.violation('%s:update_imag:accumulated-trunc_err-depends-on-split' % name, 'splits %r: %r vs %r' % (splits, a1, a2), case)
+        return
+    ov = abs(np.vdot(w1, w2)) / max(np.linalg.norm(w1) * np.linalg.norm(w2), 1e-300)
+    if not (abs(ov - 1) <= 1e-8):
+        ctx.violation('%s:update_imag:state-depends-on-split' % name, 'splits %r: overlap %r' % (splits, ov), case)
+        return
+    if not truncating and name == 'TEBDEngine':
+        # direction of exp(-tau H) v0 (second order: the deviation per unit of imaginary time is O(dtau^2))
+        lam, U = np.linalg.eigh(Hd)
+        ref = U @ (np.exp(-(lam - lam.min()) * dtau * total) * (U.conj().T @ v0))
+        d = 1 - abs(np.vdot(ref, w1)) / max(np.linalg.norm(ref) * np.linalg.norm(w1), 1e-300)
+        ctx.count('imag.direction_checked')
+        if not (d <= 5 * (dtau * nrm)**2 * max(1.0, dtau * nrm * total) + 1e-10):
+            ctx.violation('TEBDEngine:update_imag:state-far-from-exp(-tau H)psi0', '1 - |overlap| = %g at dtau*|H| = %g, %d steps' % (d, dtau * nrm, total), case)
+    ctx.sig(('imag', name, kind, L, truncating, tuple(splits[0])), nontrivial=True)
+    if i % 20 == 0:
+        ctx.sample(case)
 
 
 def case_tdvp(ctx, i):
